@@ -206,3 +206,13 @@ Definition chk_C19 (p : program) (o : output) : bool :=
 (** how many extension leaves the monitor judges (coverage) *)
 Definition judged_C19 (p : program) : N :=
   N.of_nat (length (flat_map fn_exts (functions_of p))).
+
+(** The same judgement WITHOUT the exemption of rejected analyses, for programs admitted by the
+    intended rule set: such a program has to be accepted (C02), so every one of its leaves has to
+    be evaluated once, in place, and its result used verbatim.  This is the form run on the
+    implementation's output for every well-formed program, whatever its error list says (a
+    change that drops the result of a leaf also reports an error). *)
+Definition chk_C19_strict (p : program) (o : output) : bool :=
+  all_fns chk_order_fn (functions_of p) (o_fns o) &&
+  all_fns chk_types_fn (functions_of p) (o_fns o) &&
+  forallb chk_blocks_tree (o_fns o).
